@@ -1,8 +1,8 @@
 package sys
 
 import (
-	"strings"
 	"fmt"
+	"strings"
 
 	"verifharness/common"
 )
